@@ -152,11 +152,37 @@ def check_aliases(rep, facts):
                           lambda node=node: Finding('R11.3.rebuild', 'resolve_register_aliases', node, 'the item is not rebuilt positionally from its own fields', line=node.lineno), nontrivial=False)
     rep.check(rebuilt >= 1, 'R11.3.rebuild', 'an alias-resolved item is rebuilt',
               lambda: Finding('R11.3.rebuild', 'resolve_register_aliases', ra, 'items with aliases are no longer rebuilt with the resolved registers', line=ra.lineno))
-    looks = [n for n in ast.walk(ra) if isinstance(n, ast.Subscript) and isinstance(n.value, ast.Name) and n.value.id == 'constants']
-    guards = [n for n in ast.walk(ra) if isinstance(n, ast.Compare) and len(n.ops) == 1 and isinstance(n.ops[0], (ast.NotIn, ast.In)) and unparse(n.comparators[0]) == 'constants']
+    # how does the pass decide that a field names a constant?  Membership in `constants` (or `.get(...) is None`); a bare
+    # truthiness test of the looked-up value is wrong because 0 (x0, shift amount 0) is a legal constant value
+    looked = set()
+    for n in ast.walk(ra):
+        if isinstance(n, ast.Assign) and isinstance(n.targets[0], ast.Name):
+            v = n.value
+            if (isinstance(v, ast.Subscript) and isinstance(v.value, ast.Name) and v.value.id == 'constants') or \
+                    (isinstance(v, ast.Call) and isinstance(v.func, ast.Attribute) and v.func.attr == 'get' and isinstance(v.func.value, ast.Name) and v.func.value.id == 'constants'):
+                looked.add(n.targets[0].id)
+    uses_lookup = bool(looked) or any(isinstance(n, ast.Subscript) and isinstance(n.value, ast.Name) and n.value.id == 'constants' for n in ast.walk(ra))
+    member = [n for n in ast.walk(ra) if isinstance(n, ast.Compare) and len(n.ops) == 1 and isinstance(n.ops[0], (ast.NotIn, ast.In)) and unparse(n.comparators[0]) == 'constants']
+    none_tests = [n for n in ast.walk(ra) if isinstance(n, ast.Compare) and len(n.ops) == 1 and isinstance(n.ops[0], (ast.Is, ast.IsNot))
+                  and isinstance(n.left, ast.Name) and n.left.id in looked and isinstance(n.comparators[0], ast.Constant) and n.comparators[0].value is None]
+    truthy = []
+    for n in ast.walk(ra):
+        tests = []
+        if isinstance(n, (ast.If, ast.While, ast.IfExp)):
+            tests.append(n.test)
+        for t in tests:
+            for x in ast.walk(t):
+                if isinstance(x, ast.Name) and x.id in looked:
+                    par = getattr(x, '_parent', None)
+                    if not (isinstance(par, ast.Compare)):
+                        truthy.append(n)
     keyg = [n for n in ast.walk(ra) if isinstance(n, ast.Compare) and len(n.ops) == 1 and isinstance(n.ops[0], (ast.NotIn, ast.In)) and isinstance(n.comparators[0], ast.Name)
-            and n.comparators[0].id not in ('constants',) and unparse(n.left) in ('key',)]
-    rep.check(bool(looks) and bool(guards) and bool(keyg), 'R11.3.lookup', 'a register field that names a constant is replaced by constants[name], others untouched',
+            and n.comparators[0].id not in ('constants',) and isinstance(n.left, ast.Name)]
+    for t in truthy:
+        rep.fail(Finding('R11.3.lookup', 'resolve_register_aliases', t,
+                         'whether a register field names a constant is decided by the truthiness of the looked-up value: a constant equal to 0 (an alias of x0, a zero shift amount) is '
+                         'treated as "not a constant" and left unsubstituted', line=t.lineno))
+    rep.check(uses_lookup and (bool(member) or bool(none_tests)) and bool(keyg), 'R11.3.lookup', 'a register field that names a constant is replaced by constants[name], others untouched',
               lambda: Finding('R11.3.lookup', 'resolve_register_aliases', ra, 'alias resolution no longer replaces exactly the register fields that name a constant', line=ra.lineno))
     encprops.check_rebuild_invariant(rep, facts, 'R11.3.rebuild-invariant')
 
